@@ -1,6 +1,560 @@
-//! Schedule explorer (stub for now).
+//! schx: schedule explorer.
+//!
+//! Harness threads are real OS threads, but only the one holding the baton
+//! runs. The baton changes hands only at scheduling points: a10's lock /
+//! try_lock helpers, its accesses to kernel-shared and cross-thread words
+//! (hooks H2/H3), the simulated kernel's system call entry and exit, and
+//! harness-level yields. Kernel-side actors (completion poster, sq-thread) are
+//! scheduled like threads. The explorer enumerates the choices made at those
+//! points, depth first, up to a preemption bound.
 #![allow(dead_code)]
 
-pub fn syscall_point(_what: &'static str) {}
+use std::cell::Cell;
+use std::sync::{Arc, Condvar, Mutex, MutexGuard};
+
+pub const MAX_POINTS: usize = 4000;
+
+struct Parker {
+    m: Mutex<bool>,
+    cv: Condvar,
+}
+
+impl Parker {
+    fn new() -> Parker {
+        Parker { m: Mutex::new(false), cv: Condvar::new() }
+    }
+    fn park(&self) {
+        let mut g = self.m.lock().unwrap_or_else(|e| e.into_inner());
+        while !*g {
+            g = self.cv.wait(g).unwrap_or_else(|e| e.into_inner());
+        }
+        *g = false;
+    }
+    fn unpark(&self) {
+        *self.m.lock().unwrap_or_else(|e| e.into_inner()) = true;
+        self.cv.notify_one();
+    }
+}
+
+enum Status {
+    Runnable,
+    /// Wants a mutex: (address, probe).
+    WantLock(usize, unsafe fn(*const ()) -> bool),
+    /// Waits for a condition; `timeout`: a timer may end the wait.
+    Blocked { cond: Box<dyn FnMut() -> bool + Send>, timeout: bool, what: String },
+    Finished,
+}
+
+struct ThreadState {
+    status: Status,
+    parker: Arc<Parker>,
+    /// Set when a blocked thread was resumed without its condition (timer or forced).
+    resumed_without_cond: bool,
+    name: String,
+}
+
+pub struct Actor {
+    pub name: String,
+    pub enabled: Box<dyn FnMut() -> bool + Send>,
+    pub step: Box<dyn FnMut() + Send>,
+}
+
+#[derive(Clone, Debug)]
+pub struct PointRec {
+    /// Number of alternatives at this point.
+    pub enabled: usize,
+    pub chosen: usize,
+    /// The running thread could have continued (switching away is a preemption).
+    pub cur_enabled: bool,
+    pub thread: usize,
+    pub what: &'static str,
+}
+
+#[derive(Clone, Debug, Default)]
+pub struct Exec {
+    pub points: Vec<PointRec>,
+    pub deadlocks: Vec<String>,
+    pub panics: Vec<String>,
+    pub aborted: bool,
+    pub too_long: bool,
+    pub bad_choice: bool,
+    pub choices: Vec<usize>,
+    pub trace: Vec<String>,
+}
+
+#[derive(Clone, Copy, PartialEq, Eq, Debug)]
+enum Alt {
+    Thread(usize),
+    Actor(usize),
+    /// Timer fires for a blocked thread.
+    Timer(usize),
+}
+
+struct Sched {
+    threads: Vec<ThreadState>,
+    actors: Vec<Actor>,
+    prefix: Vec<usize>,
+    exec: Exec,
+    done: Arc<Parker>,
+    finished: bool,
+    record_trace: bool,
+}
+
+static SCHED: Mutex<Option<Sched>> = Mutex::new(None);
+
+thread_local! {
+    static TID: Cell<Option<usize>> = const { Cell::new(None) };
+}
+
+fn sched() -> MutexGuard<'static, Option<Sched>> {
+    SCHED.lock().unwrap_or_else(|e| e.into_inner())
+}
+
+pub fn managed() -> bool {
+    TID.with(|t| t.get()).is_some()
+}
+
+pub fn current() -> Option<usize> {
+    TID.with(|t| t.get())
+}
+
+enum Decision {
+    Continue,
+    Switch(Arc<Parker>, Arc<Parker>),
+    Actor(usize),
+    /// Execution is over for this thread (abort): park forever.
+    Halt,
+    /// All threads finished.
+    Done,
+}
+
+impl Sched {
+    /// Alternatives in canonical order: the running thread first if enabled,
+    /// then the other threads ascending, then actors, then timers.
+    fn alternatives(&mut self, cur: usize) -> (Vec<Alt>, bool) {
+        let mut alts = Vec::new();
+        let n = self.threads.len();
+        let mut enabled = vec![false; n];
+        for i in 0..n {
+            enabled[i] = match &mut self.threads[i].status {
+                Status::Runnable => true,
+                Status::WantLock(addr, probe) => unsafe { probe(*addr as *const ()) },
+                Status::Blocked { cond, .. } => crate::talloc::untracked(|| cond()),
+                Status::Finished => false,
+            };
+        }
+        let cur_enabled = enabled[cur];
+        if cur_enabled {
+            alts.push(Alt::Thread(cur));
+        }
+        for i in 0..n {
+            if i != cur && enabled[i] {
+                alts.push(Alt::Thread(i));
+            }
+        }
+        for (i, a) in self.actors.iter_mut().enumerate() {
+            if crate::talloc::untracked(|| (a.enabled)()) {
+                alts.push(Alt::Actor(i));
+            }
+        }
+        for i in 0..n {
+            if !enabled[i] {
+                if let Status::Blocked { timeout: true, .. } = self.threads[i].status {
+                    alts.push(Alt::Timer(i));
+                }
+            }
+        }
+        (alts, cur_enabled)
+    }
+
+    fn decide(&mut self, cur: usize, what: &'static str) -> Decision {
+        loop {
+            if self.exec.aborted {
+                return Decision::Halt;
+            }
+            let (alts, cur_enabled) = self.alternatives(cur);
+            if alts.is_empty() {
+                if self.threads.iter().all(|t| matches!(t.status, Status::Finished)) {
+                    self.finished = true;
+                    return Decision::Done;
+                }
+                // Deadlock. Describe it, then force a blocked thread awake if possible.
+                let desc: Vec<String> = self
+                    .threads
+                    .iter()
+                    .enumerate()
+                    .filter_map(|(i, t)| match &t.status {
+                        Status::Blocked { what, .. } => Some(format!("thread {i} ({}) blocked in {what}", t.name)),
+                        Status::WantLock(a, _) => Some(format!("thread {i} ({}) waits for mutex {a:#x}", t.name)),
+                        _ => None,
+                    })
+                    .collect();
+                self.exec.deadlocks.push(desc.join("; "));
+                let forced = self.threads.iter().position(|t| matches!(t.status, Status::Blocked { .. }));
+                match forced {
+                    Some(i) => {
+                        self.threads[i].status = Status::Runnable;
+                        self.threads[i].resumed_without_cond = true;
+                        continue;
+                    }
+                    None => {
+                        self.exec.aborted = true;
+                        self.finished = true;
+                        self.done.unpark();
+                        return Decision::Halt;
+                    }
+                }
+            }
+            if self.exec.points.len() >= MAX_POINTS {
+                self.exec.too_long = true;
+                self.exec.aborted = true;
+                self.finished = true;
+                self.done.unpark();
+                return Decision::Halt;
+            }
+            let step = self.exec.points.len();
+            let idx = if step < self.prefix.len() { self.prefix[step] } else { 0 };
+            if idx >= alts.len() {
+                self.exec.bad_choice = true;
+                self.exec.aborted = true;
+                self.finished = true;
+                self.done.unpark();
+                return Decision::Halt;
+            }
+            self.exec.points.push(PointRec { enabled: alts.len(), chosen: idx, cur_enabled, thread: cur, what });
+            self.exec.choices.push(idx);
+            if self.record_trace {
+                self.exec.trace.push(format!("t{cur}@{what} -> {:?}", alts[idx]));
+            }
+            match alts[idx] {
+                Alt::Actor(a) => return Decision::Actor(a),
+                Alt::Timer(t) => {
+                    self.threads[t].status = Status::Runnable;
+                    self.threads[t].resumed_without_cond = true;
+                    // The timer firing is an event; decide again who runs.
+                    continue;
+                }
+                Alt::Thread(t) => {
+                    if let Status::Blocked { .. } | Status::WantLock(..) = self.threads[t].status {
+                        self.threads[t].status = Status::Runnable;
+                    }
+                    if t == cur {
+                        return Decision::Continue;
+                    }
+                    return Decision::Switch(self.threads[t].parker.clone(), self.threads[cur].parker.clone());
+                }
+            }
+        }
+    }
+}
+
+fn halt() -> ! {
+    // Execution aborted: this thread (and whatever it holds) is leaked.
+    loop {
+        std::thread::park();
+    }
+}
+
+/// A scheduling point of the calling (managed) thread.
+fn point(what: &'static str) {
+    let Some(tid) = current() else { return };
+    loop {
+        let d = {
+            let mut g = sched();
+            let Some(s) = g.as_mut() else { return };
+            s.decide(tid, what)
+        };
+        match d {
+            Decision::Continue => return,
+            Decision::Actor(a) => {
+                // Run the actor step outside the scheduler lock.
+                let mut step = {
+                    let mut g = sched();
+                    let s = g.as_mut().unwrap();
+                    std::mem::replace(&mut s.actors[a].step, Box::new(|| {}))
+                };
+                crate::talloc::untracked(|| step());
+                let mut g = sched();
+                let s = g.as_mut().unwrap();
+                s.actors[a].step = step;
+            }
+            Decision::Switch(to, me) => {
+                to.unpark();
+                me.park();
+                let g = sched();
+                if g.as_ref().is_some_and(|s| s.exec.aborted) {
+                    drop(g);
+                    halt();
+                }
+                return;
+            }
+            Decision::Halt => halt(),
+            Decision::Done => return,
+        }
+    }
+}
+
+// ------------------------------------------------------------------ hooks
+
+fn hook_before_lock(mutex: *const (), probe: unsafe fn(*const ()) -> bool) {
+    let Some(tid) = current() else { return };
+    {
+        let mut g = sched();
+        let Some(s) = g.as_mut() else { return };
+        s.threads[tid].status = Status::WantLock(mutex as usize, probe);
+    }
+    point("lock");
+}
+
+fn hook_sync_point(kind: u32, _addr: *const ()) {
+    if current().is_none() {
+        return;
+    }
+    let what = match kind & 0xff {
+        a10::verif::SYNC_LOAD_SHARED => "load-shared",
+        a10::verif::SYNC_STORE_SQ_TAIL => {
+            if kind & a10::verif::SYNC_AFTER != 0 { "sq-tail-stored" } else { "store-sq-tail" }
+        }
+        a10::verif::SYNC_STORE_CQ_HEAD => {
+            if kind & a10::verif::SYNC_AFTER != 0 { "cq-head-stored" } else { "store-cq-head" }
+        }
+        a10::verif::SYNC_LOAD_BUF_TAIL => "load-buf-tail",
+        a10::verif::SYNC_STORE_BUF_TAIL => {
+            if kind & a10::verif::SYNC_AFTER != 0 { "buf-tail-stored" } else { "store-buf-tail" }
+        }
+        a10::verif::SYNC_SET_POLLING => "set-polling",
+        a10::verif::SYNC_WAKE_POLLING => "wake-polling",
+        a10::verif::SYNC_TRY_LOCK => "try-lock",
+        a10::verif::SYNC_READ_CQE => "read-cqe",
+        _ => "sync",
+    };
+    point(what);
+}
+
+static SCHEDULER: a10::verif::Scheduler = a10::verif::Scheduler { before_lock: hook_before_lock, sync_point: hook_sync_point };
+
+pub fn install() {
+    a10::verif::install_scheduler(Some(&SCHEDULER));
+    crate::simk::set_block_hook(Some(enter_block_hook));
+}
+
+/// Scheduling point at a simulated system call boundary.
+pub fn syscall_point(what: &'static str) {
+    point(what);
+}
+
+/// Harness-level scheduling point.
+pub fn yield_point(what: &'static str) {
+    point(what);
+}
 
 pub fn on_wake(_id: u32) {}
+
+/// Block the calling thread until `cond` holds. Returns true if it holds,
+/// false if the wait was ended by a timer or forced (deadlock).
+pub fn block_until(cond: Box<dyn FnMut() -> bool + Send>, timeout: bool, what: &str) -> bool {
+    let Some(tid) = current() else {
+        return false;
+    };
+    {
+        let mut g = sched();
+        let Some(s) = g.as_mut() else { return false };
+        s.threads[tid].resumed_without_cond = false;
+        s.threads[tid].status = Status::Blocked { cond, timeout, what: what.to_string() };
+    }
+    point("block");
+    let mut g = sched();
+    let s = g.as_mut().unwrap();
+    let without = std::mem::replace(&mut s.threads[tid].resumed_without_cond, false);
+    !without
+}
+
+/// Blocking `io_uring_enter` inside the simulated kernel.
+fn enter_block_hook(ring: usize, min_complete: u32, has_timeout: bool) -> bool {
+    if current().is_none() {
+        return false;
+    }
+    block_until(
+        Box::new(move || {
+            let mut g = crate::simk::lock();
+            let Some(k) = g.as_mut() else { return true };
+            k.enter_wait_ready(ring, min_complete)
+        }),
+        has_timeout,
+        "io_uring_enter(GETEVENTS)",
+    )
+}
+
+// -------------------------------------------------------------- execution
+
+pub type Body = Box<dyn FnOnce() + Send + 'static>;
+
+/// Run one execution: `bodies` on managed threads, following `prefix`, then defaults.
+pub fn run(bodies: Vec<(String, Body)>, actors: Vec<Actor>, prefix: &[usize], trace: bool) -> Exec {
+    let done = Arc::new(Parker::new());
+    let n = bodies.len();
+    let threads: Vec<ThreadState> = bodies
+        .iter()
+        .map(|(name, _)| ThreadState { status: Status::Runnable, parker: Arc::new(Parker::new()), resumed_without_cond: false, name: name.clone() })
+        .collect();
+    let parkers: Vec<Arc<Parker>> = threads.iter().map(|t| t.parker.clone()).collect();
+    *sched() = Some(Sched {
+        threads,
+        actors,
+        prefix: prefix.to_vec(),
+        exec: Exec::default(),
+        done: done.clone(),
+        finished: false,
+        record_trace: trace,
+    });
+    let mut handles = Vec::new();
+    for (i, (name, body)) in bodies.into_iter().enumerate() {
+        let parker = parkers[i].clone();
+        let done = done.clone();
+        let h = std::thread::Builder::new()
+            .name(name)
+            .stack_size(512 * 1024)
+            .spawn(move || {
+                TID.with(|t| t.set(Some(i)));
+                parker.park();
+                let aborted = sched().as_ref().is_some_and(|s| s.exec.aborted);
+                if aborted {
+                    halt();
+                }
+                point("thread-start");
+                let r = std::panic::catch_unwind(std::panic::AssertUnwindSafe(body));
+                let panic_msg = if r.is_err() { Some(crate::seqx::take_panic()) } else { None };
+                // Thread end: mark finished and pass the baton on.
+                let d = {
+                    let mut g = sched();
+                    let s = g.as_mut().unwrap();
+                    s.threads[i].status = Status::Finished;
+                    if let Some(m) = panic_msg {
+                        s.exec.panics.push(format!("thread {i}: {m}"));
+                    }
+                    s.decide_after_finish(i)
+                };
+                match d {
+                    Decision::Switch(to, _) => to.unpark(),
+                    Decision::Done | Decision::Halt | Decision::Continue | Decision::Actor(_) => {}
+                }
+                let all_done = sched().as_ref().is_some_and(|s| s.finished);
+                if all_done {
+                    done.unpark();
+                }
+                TID.with(|t| t.set(None));
+            })
+            .expect("spawning harness thread");
+        handles.push(h);
+    }
+    let _ = n;
+    // Start thread 0.
+    parkers[0].unpark();
+    done.park();
+    let (exec, aborted) = {
+        let mut g = sched();
+        let s = g.take().unwrap();
+        let a = s.exec.aborted;
+        (s.exec, a)
+    };
+    if !aborted {
+        for h in handles {
+            let _ = h.join();
+        }
+    }
+    exec
+}
+
+impl Sched {
+    /// A thread finished: choose who runs next (actors may run on the
+    /// finishing thread first).
+    fn decide_after_finish(&mut self, cur: usize) -> Decision {
+        loop {
+            match self.decide(cur, "thread-end") {
+                Decision::Actor(a) => {
+                    let mut step = std::mem::replace(&mut self.actors[a].step, Box::new(|| {}));
+                    // NOTE: runs under the scheduler lock; actor steps must not
+                    // reach scheduling points (they don't: they are kernel code).
+                    crate::talloc::untracked(|| step());
+                    self.actors[a].step = step;
+                }
+                d => return d,
+            }
+        }
+    }
+}
+
+// ------------------------------------------------------------- exploration
+
+#[derive(Default)]
+pub struct Stats {
+    pub executions: u64,
+    pub points: u64,
+    pub max_points: usize,
+    pub capped: bool,
+    pub bound_completed: u32,
+}
+
+/// Preemption-bounded DFS. `run_one(prefix)` runs an execution and returns it;
+/// it is also responsible for judging it. Returns false to stop exploring.
+pub fn explore(bound: u32, shard: (usize, usize), cap_s: u64, run_one: &mut dyn FnMut(&[usize]) -> Exec, stats: &mut Stats) {
+    let t0 = std::time::Instant::now();
+    let mut item = 0usize;
+    rec(&[], 0, bound, shard, cap_s, t0, run_one, stats, &mut item, true);
+    if !stats.capped {
+        stats.bound_completed = bound;
+    }
+}
+
+#[allow(clippy::too_many_arguments)]
+fn rec(
+    prefix: &[usize],
+    used: u32,
+    bound: u32,
+    shard: (usize, usize),
+    cap_s: u64,
+    t0: std::time::Instant,
+    run_one: &mut dyn FnMut(&[usize]) -> Exec,
+    stats: &mut Stats,
+    item: &mut usize,
+    top: bool,
+) {
+    if cap_s > 0 && t0.elapsed().as_secs() >= cap_s {
+        stats.capped = true;
+        return;
+    }
+    crate::breadcrumb::set_tagged("schx", prefix);
+    let x = run_one(prefix);
+    assert!(!x.bad_choice, "schx: choice out of range while replaying a prefix (nondeterministic harness?)");
+    let counted = !top || shard.0 == 0;
+    if counted {
+        stats.executions += 1;
+        stats.points += x.points.len() as u64;
+        stats.max_points = stats.max_points.max(x.points.len());
+    }
+    if x.aborted && x.too_long {
+        return;
+    }
+    // Branch at every point after the prefix. Default choices cost nothing;
+    // switching away from a thread that could continue is a preemption.
+    for i in prefix.len()..x.points.len() {
+        let p = &x.points[i];
+        let c = used + if p.cur_enabled { 1 } else { 0 };
+        if c > bound {
+            continue;
+        }
+        for alt in 1..p.enabled {
+            if top {
+                // Shard the top-level alternatives.
+                let mine = *item % shard.1 == shard.0;
+                *item += 1;
+                if !mine {
+                    continue;
+                }
+            }
+            let mut np = x.choices[..i].to_vec();
+            np.push(alt);
+            rec(&np, c, bound, shard, cap_s, t0, run_one, stats, item, false);
+        }
+    }
+}
